@@ -118,3 +118,21 @@ fn isaac_core_debug_is_constant() {
     write!(p, "{:#?}", a).unwrap();
     assert!(p.n == expect.len() && p.buf[k] == expect[k]);
 }
+
+// ---- C11: serde snapshot of the core and of the whole generator (needs `--features serde`) ------------------------
+#[cfg(feature = "serde")]
+include!(concat!(env!("RNGS_VERIF_DIR"), "/kani/incrate/tokfmt.rs"));
+
+// (a) the core in an ARBITRARY state (all 259 words symbolic) through the derive output and isaac_array_serde
+#[cfg(feature = "serde")]
+#[kani::proof]
+#[kani::unwind(262)]
+fn isaac_core_serde_roundtrip() {
+    let a = any_core();
+    let toks = tokfmt::to_tokens(&a);
+    assert!(toks.n == RAND_SIZE + 3);
+    let b: IsaacCore = tokfmt::from_tokens(&toks);
+    let k: usize = kani::any();
+    kani::assume(k < RAND_SIZE);
+    assert!(b.mem[k] == a.mem[k] && b.a == a.a && b.b == a.b && b.c == a.c);
+}
